@@ -136,7 +136,8 @@ def main(tier):
             main_text = apidoc.render(main_blocks)[0]
             # every file of the project in its own newline convention
             conv = {k: rnd.choice(["\n", "\n", "\r\n", "\r"]) for k in list(ff) + ["main.jst"]}
-            ff = {k: v.replace("\n", conv[k]) for k, v in ff.items()}
+            # (a file that the form already wrote with its own line ends is first brought back to LF: one convention per file)
+            ff = {k: v.replace("\r\n", "\n").replace("\r", "\n").replace("\n", conv[k]) for k, v in ff.items()}
             main_text = main_text.replace("\n", conv["main.jst"])
             cid = "i%d_%s" % (n, nm)
             allf = {"main.jst": main_text}
